@@ -131,6 +131,9 @@ import PsVerif
 #print axioms PsVerif.line_strictly_right
 #print axioms PsVerif.gridPt_spec
 #print axioms PsVerif.polygon_rectangle
+#print axioms PsVerif.translated_shape_indices
+#print axioms PsVerif.translated_line_indices
+#print axioms PsVerif.translated_polygon
 -- C13
 #print axioms PsVerif.box_order
 #print axioms PsVerif.transposeIdx_involutive
